@@ -125,6 +125,13 @@ func cmdCheck(args []string) int {
 		fmt.Fprintf(os.Stderr, "govc: no function under contract for property %s\n", o.prop)
 		return 2
 	}
+	for _, ob := range all {
+		for i := range known {
+			if known[i].Property == o.prop && known[i].Status == "open" && known[i].Obligation == ob.Name() {
+				ob.ExpectedToFail = true // open known finding: confirm with a short budget that it still does not discharge
+			}
+		}
+	}
 	ts := time.Now()
 	dischargeAll(all, o.tier, o.timeout, o.workers)
 	solveS := time.Since(ts).Seconds()
